@@ -1,5 +1,6 @@
 import Iavl.Model.Walk
 import Iavl.Model.Merge
+import Iavl.Lemmas.VersionSharing
 /-
   C08 — iterator contract. `Node.walk` is the leaf sequence produced by `traversal.next` with its
   three pruning tests; `rangeSpec` is "the stored keys k with start ≤ k < end (≤ end if inclusive),
@@ -15,6 +16,17 @@ variable {K V : Type} [Ord K] [BEq K] [TransOrd K] [LawfulEqOrd K]
 theorem tree_walk_exact (t : Node K V) (s e : Option K) (asc incl : Bool) (ho : Ordered t) :
     t.walk s e asc incl = rangeSpec t.toList s e asc incl :=
   walk_eq_spec t s e asc incl ho
+
+/-- **every iteration over every retained version of every history**: in every state the version machine
+    reaches from an empty store, walking a retained version with any bounds, in either direction, with
+    the end inclusive or not, yields exactly the pairs of that version in the range, in order -/
+theorem iteration_exact_in_every_history (iv : Option Nat) (ops : List (Op K V)) (u : Nat) (T : Node K V)
+    (h : (u, some T) ∈ (stateAfter (initT iv) ops).versions) (s e : Option K) (asc incl : Bool) :
+    T.walk s e asc incl = rangeSpec T.toList s e asc incl := by
+  have hi := stateAfter_inv (initT iv : VState (OTree K V))
+    ⟨trivial, trivial, by intro q hq; simp [initT] at hq⟩ ops
+  have g : Good T := hi.gv _ h
+  exact walk_eq_spec T s e asc incl g.1
 
 variable (cmp : K → K → Ordering) [TransCmp cmp] [LawfulEqCmp cmp]
 
